@@ -101,7 +101,11 @@ func FromCbor(data []byte) (Reader, error) {
 
 // FromCborReader is the same as FromCbor, but with an io.Reader.
 func FromCborReader(r io.Reader) (Reader, error) {
-	n, err := ipld.DecodeStreaming(noEmptyReads{r: r}, dagcbor.Decode)
+	rd := &noEmptyReads{r: r}
+	n, err := ipld.DecodeStreaming(rd, dagcbor.Decode)
+	if err == nil {
+		err = rd.err
+	}
 	if err != nil {
 		return nil, err
 	}
@@ -209,17 +213,22 @@ func (ctn Reader) addToken(data []byte) error {
 
 // noEmptyReads retries a Read that returned (0, nil): io.Reader permits such a
 // read and asks callers to treat it as "nothing happened", but the IPLD stream
-// decoder mistakes it for a zero byte.
+// decoder mistakes it for a zero byte. It also keeps the first failure other
+// than io.EOF, which the decoder drops when it arrives together with data.
 type noEmptyReads struct {
-	r io.Reader
+	r   io.Reader
+	err error
 }
 
-func (n noEmptyReads) Read(p []byte) (int, error) {
+func (n *noEmptyReads) Read(p []byte) (int, error) {
 	if len(p) == 0 {
 		return n.r.Read(p)
 	}
 	for i := 0; i < 100; i++ {
 		k, err := n.r.Read(p)
+		if err != nil && err != io.EOF && n.err == nil {
+			n.err = err
+		}
 		if k > 0 || err != nil {
 			return k, err
 		}
